@@ -55,3 +55,25 @@ def is_connected(diagram):
 def wired(diagram, k, l):
     """ Is there a wire from box k to box l (k < l)? """
     return (k, l) in box_edges(diagram)
+
+
+def wiring_modulo_swaps(diagram):
+    """
+    Wiring with Swap boxes dissolved into the wires they cross; the other
+    boxes are labelled by their rank among the non-swap boxes.
+    """
+    scan = [("in", i) for i in range(len(diagram.dom))]
+    edges, rank = set(), 0
+    for box, off in zip(diagram.boxes, diagram.offsets):
+        if type(box).__name__ == "Swap" and hasattr(box, "left")\
+                and len(box.dom) == 2:
+            scan[off], scan[off + 1] = scan[off + 1], scan[off]
+            continue
+        n, m = len(box.dom), len(box.cod)
+        for j in range(n):
+            edges.add((scan[off + j], ("dom", rank, j)))
+        scan[off:off + n] = [("cod", rank, j) for j in range(m)]
+        rank += 1
+    for i, source in enumerate(scan):
+        edges.add((source, ("out", i)))
+    return edges
